@@ -267,6 +267,9 @@ def suite_ddd(ctx):
         caf, cmf = rng.choice(FORMATS[:9]), rng.choice(FORMATS[:9])
         same = rng.random() < 0.7
         eaf, emf = rng.choice(FORMATS[:9]), rng.choice(FORMATS[:9])
+        odd = None
+        if same and n >= 2 and rng.random() < 0.4:
+            odd = rng.randrange(n)          # every entry agrees except one (at any position, the last included)
         entries = []
         for i in range(n):
             if rng.random() < 0.75:     # mostly values that fit the widths in force
@@ -277,7 +280,9 @@ def suite_ddd(ctx):
             else:
                 a = rng.choice(VALUES + [rng.getrandbits(16), rng.getrandbits(32)])
                 z = rng.choice([0, 1, 0xFF, 0x100, rng.getrandbits(8), rng.getrandbits(16)])
-            if same:
+            if same and i == odd:
+                entries.append((a, z, rng.choice([f for f in FORMATS[:9] if f != eaf]), emf) if rng.random() < 0.5 else (a, z, eaf, rng.choice([f for f in FORMATS[:9] if f != emf])))
+            elif same:
                 entries.append((a, z, eaf, emf))
             else:
                 entries.append((a, z, rng.choice(FORMATS[:9]), rng.choice(FORMATS[:9])))
